@@ -174,6 +174,28 @@ def judge(ctx, kind, graph_seed, knobs, a_mode, b_mode, p_outside):
                 finally:
                     if os.path.exists(p3):
                         os.remove(p3)
+            # the collection adapters are public classes: the audio directory may reach them inside an injected recording
+            # adapter instead of their own `audio_dir` argument
+            if kind in ("recording_set", "dataset") and a_arg is not None and not any_outside and recs:
+                from soundevent.io.aoef.note import NoteAdapter
+                from soundevent.io.aoef.recording import RecordingAdapter
+                from soundevent.io.aoef.tag import TagAdapter
+                from soundevent.io.aoef.user import UserAdapter
+
+                ua, ta = UserAdapter(), TagAdapter()
+                na = NoteAdapter(ua)
+                ra = RecordingAdapter(ua, ta, na, audio_dir=a_arg)
+                cls_ = AOEF.RecordingSetAdapter if kind == "recording_set" else AOEF.DatasetAdapter
+                d3 = cls_(user_adapter=ua, tag_adapter=ta, note_adapter=na, recording_adapter=ra).to_aoef(obj)
+                ctx.mon("adapter_with_injected_recording_adapter")
+                for ro in d3.recordings or []:
+                    orig = recs.get(str(ro.uuid))
+                    if orig is None:
+                        continue
+                    want = PurePosixPath(str(orig.path)).relative_to(PurePosixPath(str(A)))
+                    if PurePosixPath(str(ro.path)) != want:
+                        ctx.violate("stored_relative", f"stored_relative:{kind}:injected_recording_adapter", observed=str(ro.path), expected=str(want), spec=_spec)
+                        break
             # and the collection itself, written again under no / another directory
             d2 = AOEF.to_aeof(obj, audio_dir=None)
             ctx.mon("collection_converted_again_without_directory")
